@@ -19,6 +19,7 @@ def main(argv=None):
     ap.add_argument("--replay", default=None)
     args = ap.parse_args(argv)
     seed = int(os.environ.get("VERIF_SEED", "0") or 0)
+    os.environ["VERIF_TIER"] = args.tier
     prop = args.prop.upper()
     try:
         mod = importlib.import_module(f"vf.props.{prop.lower()}")
